@@ -30,6 +30,21 @@ MCase(ts, ks) == LET c == Cat(ts) IN
 MCases == {MCase(<<t1, t2>>, ks) : t1, t2 \in MTables, ks \in {"a", "ab", "ba", "none"}}
           \cup {MCase(<<t1, t2, t3>>, "a") : t1, t2, t3 \in SeqsUpTo(MRowVals, 1)}
 
+\* mergesort over tables with DIFFERENT headers: table 1 has fields (a, b), tables 2 and 3 have (a, b, c); the output
+\* header is the union (a, b, c), rows of table 1 read None for c; key=None sorts lexically over all three
+XRows == {<<x, y>> : x \in {0, 1}, y \in {1}}
+X3Rows == {<<x, y, z>> : x \in {0, 1}, y \in {1}, z \in {1, 2}}
+\* shape "abc": tables 2, 3 have fields (a, b, c); shape "ac": they have only (a, c) - the union (a, b, c) is then wider
+\* than every source header and their rows read None for b
+Widen(t, shape) == IF shape = "abc" THEN t ELSE [i \in 1..Len(t) |-> <<t[i][1], 0, t[i][3]>>]
+MXCase(t1, t2, t3, ks, shape) ==
+  LET c == [i \in 1..Len(t1) |-> t1[i] \o <<0>>] \o Widen(t2, shape) \o Widen(t3, shape)
+      keys == [i \in 1..Len(c) |-> IF ks = "none" THEN KeyOf(c[i], <<1, 2, 3>>) ELSE KeyOf(c[i], <<1>>)] IN
+  [t1 |-> t1, t2 |-> t2, t3 |-> t3, key |-> ks, shape |-> shape, rows |-> c,
+   asc |-> StableOrder(keys, FALSE), desc |-> StableOrder(keys, TRUE)]
+MXCases == {MXCase(t1, t2, t3, ks, sh) : t1 \in SeqsUpTo(XRows, 1), t2 \in SeqsUpTo(X3Rows, 2), t3 \in SeqsUpTo(X3Rows, 1),
+                                          ks \in {"none", "a"}, sh \in {"abc", "ac"}}
+ASSUME ndJsonSerialize(IOEnv.OUT3, SetToSeq(MXCases))
 ASSUME ndJsonSerialize(IOEnv.OUT, SetToSeq(Cases))
 ASSUME ndJsonSerialize(IOEnv.OUT2, SetToSeq(MCases))
 VARIABLE x
